@@ -910,3 +910,49 @@ def rule_fwdsib(ctx, prop: str) -> RuleResult:
         raise AnalysisError(f"FWDSIB: expected >= 3 fwd_node/fwd_block sibling pairs in internal_cursors.py, found {n_pairs}")
     res.floor = 3
     return res
+
+
+API = "src/exo/API.py"
+
+
+def rule_apifwd(ctx, prop: str) -> RuleResult:
+    """"Cursors handed directly to a scheduling operation behave exactly as if they had been
+    forwarded explicitly first."  The atomic operations get that from
+    CursorArgumentProcessor (FWDWALK); a public `Procedure` method that takes a cursor and
+    uses its internal cursor (`<param>._impl`) must forward it itself —
+    `<param> = self.forward(<param>)` on every path before the use."""
+    ix = ctx.ix
+    res = RuleResult("APIFWD")
+    c = ix.module(API).cls("Procedure")
+    n = 0
+    for name, f in c.methods.items():
+        if name.startswith("_") or name == "forward":
+            continue
+        ps = [p for p in f.params() if p != "self"]
+        for p_ in ps:
+            uses = [k for k in f.body_nodes() if isinstance(k, ast.Attribute) and k.attr == "_impl" and isinstance(k.value, ast.Name) and k.value.id == p_]
+            if not uses:
+                continue
+            n += 1
+            res.instances += 1
+            res.nontrivial += 1
+            res.analysed.append(f"{API}:{f.qualname}")
+            first_use = min(u.lineno for u in uses)
+            fwd = [
+                k for k in f.node.body
+                if isinstance(k, ast.Assign) and len(k.targets) == 1 and isinstance(k.targets[0], ast.Name) and k.targets[0].id == p_
+                and isinstance(k.value, ast.Call) and dotted(k.value.func) == "self.forward" and k.value.args and dotted(k.value.args[0]) == p_
+            ]
+            ok = bool(fwd) and min(k.lineno for k in fwd) < first_use
+            res.ob(ok)
+            res.sample(f"{f.qualname}: cursor parameter `{p_}` is forwarded to this procedure before its internal cursor is used: {ok}")
+            if not ok:
+                res.add(
+                    Finding("APIFWD", API, first_use, f.qualname, p_,
+                            f"{f.qualname} uses `{p_}._impl` without `{p_} = self.forward({p_})`: the operation acts on the procedure the cursor came from, not on `self` "
+                            f"(p2 = p.transpose(a); p2.transpose(b) with b a cursor into p returns p with only B transposed)")
+                )
+    if n < 1:
+        raise AnalysisError("APIFWD: no Procedure method using a cursor parameter's _impl found")
+    res.floor = 1
+    return res
